@@ -2,6 +2,7 @@ package gosym
 
 import (
 	"fmt"
+	"go/token"
 	"math/big"
 )
 
@@ -24,6 +25,48 @@ func (it *Interp) bigObj(v Value) *BigV {
 func (it *Interp) bigVal(v Value) Value { return it.bigObj(v).V }
 
 func (it *Interp) newBig(v Value) *Ptr { return &Ptr{C: it.newCell(&BigV{V: v}, "big")} }
+
+// BitLenV is the result of big.Int.BitLen on a symbolic value; only comparisons against constants are supported.
+type BitLenV struct{ V Value }
+
+// cmpBitLen: BitLen(v) op c, using BitLen(v) <= c  <=>  |v| < 2^c.
+func cmpBitLen(op token.Token, b BitLenV, c *big.Int, flipped bool) Value {
+	if flipped {
+		switch op {
+		case token.LSS:
+			op = token.GTR
+		case token.LEQ:
+			op = token.GEQ
+		case token.GTR:
+			op = token.LSS
+		case token.GEQ:
+			op = token.LEQ
+		}
+	}
+	n := int(c.Int64())
+	a := mkAbs(b.V)
+	le := func(k int) Value { // BitLen <= k
+		if k < 0 {
+			return false
+		}
+		return mkCmp("<", a, pow2(k))
+	}
+	switch op {
+	case token.LEQ:
+		return le(n)
+	case token.LSS:
+		return le(n - 1)
+	case token.GTR:
+		return mkNot(le(n))
+	case token.GEQ:
+		return mkNot(le(n - 1))
+	case token.EQL:
+		return mkAnd(le(n), mkNot(le(n-1)))
+	case token.NEQ:
+		return mkNot(mkAnd(le(n), mkNot(le(n-1))))
+	}
+	panic(unsupported("operation on BitLen of a symbolic value"))
+}
 
 func mkSign(v Value) Value {
 	if b, ok := v.(*big.Int); ok {
@@ -143,6 +186,10 @@ func registerBig(P *Program) {
 		if b, ok := v.(*big.Int); ok {
 			return it.mkBytes(b.Bytes())
 		}
+		// the byte string of zero is empty
+		if it.branchOn(mkCmp("=", v, big.NewInt(0))) {
+			return it.mkBytes(nil)
+		}
 		return &BlobV{Kind: "bigbytes", V: mkAbs(v)}
 	})
 	P.reg(B+"Cmp", func(it *Interp, a []Value) Value { return mkCmp3(it.bigVal(a[0]), it.bigVal(a[1])) })
@@ -187,7 +234,7 @@ func registerBig(P *Program) {
 		if b, ok := v.(*big.Int); ok {
 			return big.NewInt(int64(b.BitLen()))
 		}
-		panic(unsupported("BitLen of symbolic big.Int at " + it.where()))
+		return BitLenV{V: v}
 	})
 	P.reg(B+"String", func(it *Interp, a []Value) Value {
 		p := a[0].(*Ptr)
